@@ -40,10 +40,10 @@ Theorem C15_join_comm : forall ds g l l' a b, shape a = true -> shape b = true -
 Proof. exact bu_join_comm. Qed.
 Print Assumptions C15_join_comm.
 
-Theorem C15_join_comm_model_partial : forall ds, graphs_nodup ds -> forall pushed l l' a b g c,
+Theorem C15_join_comm_model_partial : forall ds, graphs_nodup ds -> ds_nb ds -> forall pushed l l' a b g c,
   frag (map fst (ds_named ds)) pushed (Join l a b) = true ->
   frag (map fst (ds_named ds)) pushed (Join l' b a) = true ->
-  NoDup g -> sol_wf c = true -> dom_in c pushed ->
+  gok g -> sol_wf c = true -> dom_in c pushed ->
   Permutation (eval_td ds g c (Join l a b)) (eval_td ds g c (Join l' b a)).
 Proof. exact td_join_comm. Qed.
 Print Assumptions C15_join_comm_model_partial.
